@@ -292,6 +292,20 @@ def _handles(ctx, repo, m):
         ctx.ob("C13-R5", f.fq, "the proxy is returned to the caller, not stored", ok, node=c, construct="proxy not cached")
 
 
+# functions whose mechanical mutants are swept in the thorough tier (coverage evidence, see sa/mutate.py)
+MUTATION_SCOPE = ['sys_fn_ipc:encode_message',
+                  'sys_fn_ipc:decode_message_len',
+                  'sys_fn_ipc:decode_message',
+                  'sys_fn_ipc:stream_send_msg',
+                  'sys_fn_ipc:stream_recv_msg',
+                  'sys_fn_ipc:execute_server_command',
+                  'sys_fn_ipc:run_command_on_klongloop',
+                  'sys_fn_ipc:NetworkClient._listen',
+                  'sys_fn_ipc:NetworkClient._run',
+                  'sys_fn_ipc:NetworkClient.__call__',
+                  'sys_fn_ipc:NetworkClientDictHandle.get',
+                  'types:KGUndefined.__reduce__']
+
 SEEDS = [
     Seed("little-endian-length", "fault", IPC, "    length_bytes = struct.pack(\"!I\", len(data))", "    length_bytes = struct.pack(\"<I\", len(data))", rule="C13-R1"),
     Seed("short-read", "fault", IPC, "    raw_msglen = await reader.readexactly(4)", "    raw_msglen = await reader.read(4)", rule="C13-R1"),
